@@ -14,6 +14,7 @@ def run(cx):
     r1_upgrade_iface(cx, h)
     r1_pop(cx, h)
     r1_fresh(cx, h)
+    hc.check_writer_passthrough(cx, "C02.R1", h)
     r2(cx)
     r2_upgrade_tail(cx)
     r3(cx)
@@ -70,7 +71,7 @@ def r1_pop(cx, h):
              note_ok="one Vec::pop on the message buffer dominates from_slice")
 
 
-def r1_fresh(cx, h):
+def r1_fresh(cx, h, rule="C02.R1"):
     """every read_until starts from an empty message buffer: between two reads (and before the first) the buffer is created anew or cleared"""
     body, cfg, du = h.body, h.cfg, h.du
     fresh = set()
@@ -80,7 +81,7 @@ def r1_fresh(cx, h):
     for i, t in enumerate(h.read_untils):
         from_entry = cfg.must_pass(0, [t.bb], fresh)
         again = cfg.must_pass(t.target, [t.bb], fresh)
-        cx.check(from_entry and again, "C02.R1", "handle:read_until#%d:fresh-buffer" % i, "%s %s" % (t.sp, body.path),
+        cx.check(from_entry and again, rule, "handle:read_until#%d:fresh-buffer" % i, "%s %s" % (t.sp, body.path),
                  "a path reaches read_until with a message buffer that may still hold bytes of an earlier message (%s): the next message would be glued to stale bytes" %
                  ("from the previous read" if from_entry else "from entry"),
                  note_ok="buffer is new/cleared on every path into read_until")
